@@ -56,11 +56,12 @@ BoundsValueOk(r) ==
 
 KeptExpected(r) == Kept(r.raw, r.raw, r.minpts)
 
+(* The NUMBER of raw intervals is not part of the property (trailing empty intervals are     *)
+(* harmless); only membership, references, boundaries and the drop / error rules are judged. *)
 Clauses(r) ==
   IF r.exc # "" THEN << <<"UnexpectedException", FALSE>> >>
   ELSE IF ~MasksOk(r) THEN << <<"MaskShape", FALSE>> >>
   ELSE <<
-    <<"IntervalCount", K(r) >= IdealK(r) /\ K(r) <= IdealK(r) + 1>>,
     <<"AtMostOne", \A j \in 1..N(r) : Cardinality(InSet(r.raw, j)) <= 1>>,
     <<"ExactlyOne", \A j \in 1..N(r) : Cov(r, j) => Cardinality(InSet(r.raw, j)) = 1>>,
     <<"Membership", \A j \in 1..N(r) : Cov(r, j) => InSet(r.raw, j) \subseteq Acc(r, j)>>,
